@@ -1,4 +1,5 @@
-KERNELS = {'C07_wiring': dict(src='kernels/C07_wiring.cpp', flags=['-DNDEBUG'])}
+KERNELS = {'C07_wiring': dict(src='kernels/C07_wiring.cpp', flags=['-DNDEBUG']),
+           'C07_leaf_int': dict(src='kernels/C07_leaf_int.cpp', flags=['-DNDEBUG'])}
 def _c(e, **kw):
     c = {'MAXE': e, '_unwindset': ['in_data.0:%d' % (e**3 + 2), 'k_fill_u32.0:%d' % (e**3 + 2)]}; c.update(kw); return c
 def _w(name, unwind=8, quick=None, thorough=None, **kw):
@@ -11,6 +12,9 @@ HARNESSES = [
  _w('where_21s', bounds=''), _w('where_122', bounds=''), _w('clip_sss', bounds=''),
  _w('outer_sub_21', bounds=''), _w('outer_sub_12', bounds=''),
 ]
+def _li(name, **kw):
+    return dict(name='li_' + name, src='harnesses/C07_leaf.c', func='h_li_' + name, kernels=['C07_leaf_int'], unwind=4, quick=[{'LEAF_INT': 1}], thorough=[{'LEAF_INT': 1}], bounds='', **kw)
+HARNESSES += [_li('unary'), _li('addsub'), _li('mul', backend='z3'), _li('divmod', backend='z3'), _li('bitwise'), _li('shift'), _li('cmp'), _li('logical'), _li('minmax')]
 OUTSIDE = []
 ASSUMPTIONS = []
 CLAIM = dict(text='', note='')
